@@ -19,11 +19,12 @@ St(r) == [feats |-> AsSet(r.feats), label |-> r.label, uuid |-> r.uuid, blocks |
           extopts |-> r.extopts, journal |-> r.journal, quota |-> AsSet(r.quota), seed |-> r.seed, resuid |-> r.resuid, resgid |-> r.resgid,
           stride |-> r.stride, stripe |-> r.stripe, hashalg |-> r.hashalg, testfs |-> r.testfs, valid |-> r.valid, errfs |-> r.errfs,
           lastmnt |-> r.lastmnt, mmp |-> r.mmp, mmpint |-> r.mmpint, orphino |-> r.orphino, csumtype |-> r.csumtype,
-          lastcheck |-> r.lastcheck, mtime |-> r.mtime, jdev |-> r.jdev, packed |-> r.packed]
+          lastcheck |-> r.lastcheck, mtime |-> r.mtime, jdev |-> r.jdev, packed |-> r.packed, jmode |-> r.jmode,
+          qinum |-> [usr |-> r.qinum.usr, grp |-> r.qinum.grp, prj |-> r.qinum.prj], firstino |-> r.firstino, lowfree |-> r.lowfree]
 
 (* the e2fsck run tune2fs asked for: marks the filesystem checked, may put back a feature the data still needs *)
 AfterFsckOK(m, a, op) ==
-   /\ a = [m EXCEPT !.valid = 1, !.errfs = 0, !.mntcount = 0, !.lastcheck = FakeNow, !.feats = a.feats, !.uuid = a.uuid]
+   /\ a = [m EXCEPT !.valid = 1, !.errfs = 0, !.mntcount = 0, !.lastcheck = FakeNow, !.feats = a.feats, !.uuid = a.uuid, !.lowfree = a.lowfree]
    /\ m.feats \subseteq a.feats /\ (a.feats \ m.feats) \subseteq FsckMayRestore(op)
    /\ a.uuid \in FsckUuids(m)                                                  \* a filesystem without UUID is given one
 
@@ -49,7 +50,11 @@ Accepted(r) ==
        asked == r.asked_f = 1 \/ r.asked_d = 1
        exp == Effect(r.op, b)
        expmid == [exp EXCEPT !.valid = IF r.asked_d = 1 THEN 0 ELSE @]          \* request_dir_fsck_afterwards() clears VALID_FS too
-   IN /\ m = expmid                                                             \* exactly the requested setting + what it implies
+       newprj == "prj" \in m.quota \ b.quota
+       mask(s) == [s EXCEPT !.lowfree = 0, !.qinum = [@ EXCEPT !.prj = IF newprj THEN 0 ELSE @]]
+   IN /\ mask(m) = mask(expmid)                                                 \* exactly the requested setting + what it implies
+                                                                                \* (lowfree: observed allocation state, not predicted)
+      /\ (newprj => QuotaInoAllowed("prj", m.qinum.prj, b) /\ r.prjino_was_free = 1)  \* a new project quota file: any inode >= s_first_ino that was free
       /\ (r.asked_d = 1 => MayAskDirFsck(r.op, b))
       /\ (asked => r.fsck_req_rc \in {0, 1})                                    \* the requested e2fsck completes the conversion
       /\ (IF asked THEN AfterFsckOK(m, a, r.op) ELSE a = m)
